@@ -20,7 +20,8 @@ def validate_ellipsoid(covariance: np.ndarray, axes: list[Axis] | None) -> None:
 
     Raises:
         ValueError: Must define space axes in order to have ellipsoid data
-        ValueError: Ellipsoid covariance matrix must have 1 + number of spatial dimensions
+        ValueError: Ellipsoid covariance matrix must be a stack of square matrices with one
+            row/column per spatial axis
         ValueError: Spatial dimensions of covariance matrix must be equal
         ValueError: Ellipsoid covariance matrices must be symmetric
         ValueError: Ellipsoid covariance matrices must be positive-definite
@@ -39,14 +40,21 @@ def validate_ellipsoid(covariance: np.ndarray, axes: list[Axis] | None) -> None:
     if bad_axes:
         raise ValueError("Must define space axes in order to have ellipsoid data")
 
-    if covariance.ndim != (exp_dim := spatial_dim + 1):
+    # One square matrix per node: (num_nodes, spatial_dim, spatial_dim)
+    if covariance.ndim != 3:
         raise ValueError(
-            f"Ellipsoid covariance matrix must have {exp_dim} dimensions, got {covariance.ndim}"
+            f"Ellipsoid covariance matrix must have 3 dimensions, got {covariance.ndim}"
         )
 
     if covariance.shape[1] != covariance.shape[2]:
         raise ValueError(
             f"Spatial dimensions of covariance matrix must be equal, got {covariance.shape[1:]}"
+        )
+
+    if covariance.shape[1] != spatial_dim:
+        raise ValueError(
+            f"Ellipsoid covariance matrix must have {spatial_dim} spatial dimensions, "
+            f"got {covariance.shape[1]}"
         )
 
     transpose = [0, *list(range(covariance.ndim - 1, 0, -1))]
